@@ -680,6 +680,7 @@ pub fn gate_poke(g: usize) {
         return;
     }
     world.cover.pokes += 1;
+    rt::kernel::note_fault();
     let wakers: Vec<Waker> = world.gates[g].wakers.iter().map(|(_, wk)| wk.clone()).collect();
     for wk in wakers {
         wk.wake();
@@ -698,6 +699,7 @@ pub fn gate_wake_stale(g: usize) {
             cover_at(|c| &mut c.at_stale_wake, o);
         }
         w().cover.stale_wakes += 1;
+        rt::kernel::note_fault();
         ev("stale_wake", g as i64, 0);
         wk.wake();
         ev("stale_wake_done", g as i64, 0);
@@ -818,6 +820,7 @@ pub fn stream_wake_stale(s: usize) {
     let wakers = std::mem::take(&mut world.streams[s].stale);
     for wk in wakers {
         w().cover.stale_wakes += 1;
+        rt::kernel::note_fault();
         wk.wake();
     }
 }
